@@ -144,7 +144,8 @@ def _is_number(text: Optional[str]) -> bool:
 def _value(cls, meth, param) -> Optional[str]:
     lit = OVERRIDE.get((cls, meth, param), VALUES.get(param))
     if RT_MODE and _is_number(lit) and not (cls == "LCD" and meth == "__init__") and param not in ("min_angle", "max_angle", "min_pulse_us", "max_pulse_us"):
-        return f"rv_{param}"
+        # "same": the run-time variable is named exactly like the parameter it is passed to (frequency, duration_ms, ...)
+        return param if RT_MODE == "same" else f"rv_{param}"
     return lit
 
 
@@ -204,8 +205,24 @@ def shapes(cls: str, meth: str) -> Iterator[dict]:
                     for prm in plist:
                         if prm.name not in included and prm.default is not inspect._empty and isinstance(prm.default, (int, float, bool, str)):  # None defaults are resolved inside the host class
                             defaults[prm.name] = prm.default
-                    yield {"cls": cls, "meth": meth, "args": ", ".join(args_src), "binding": binding, "defaults": defaults, "group": f"{cls}.{meth}/{vi}/{','.join(sorted(binding))}",
-                           "n_pos": k, "kw_order": list(perm)}
+                    base = {"cls": cls, "meth": meth, "args": ", ".join(args_src), "binding": binding, "defaults": defaults, "group": f"{cls}.{meth}/{vi}/{','.join(sorted(binding))}",
+                            "n_pos": k, "kw_order": list(perm)}
+                    yield base
+                    if perm != tuple(kws):
+                        continue
+                    # an omitted parameter passed EXPLICITLY with its default value (None included) binds like the
+                    # omission: accepted => same firmware as the shape without it (same group)
+                    for prm in plist:
+                        if prm.name in included or prm.default is inspect._empty or not isinstance(prm.default, (int, float, bool, str, type(None))):
+                            continue
+                        lit = repr(prm.default)
+                        yield dict(base, args=", ".join(args_src + [f"{prm.name}={lit}"]), explicit_default=prm.name)
+                        if not kws and prm.name in pos_capable and len(pos) == pos_capable.index(prm.name) and order.index(prm.name) == len(pos):
+                            yield dict(base, args=", ".join(args_src + [lit]), explicit_default=prm.name)
+
+
+def _is_rt(v) -> bool:
+    return isinstance(v, str) and (v.startswith("rv_") or (v.isidentifier() and v in VALUES and v not in ("hit",)))
 
 
 def script_for(shape: dict) -> Tuple[str, str]:
@@ -221,7 +238,7 @@ def script_for(shape: dict) -> Tuple[str, str]:
     else:
         lines.append(DECLS[cls])
         lines.append(f"{RECV[cls]}.{meth}({shape['args']})")
-    rt_names = sorted({v for v in shape["binding"].values() if isinstance(v, str) and v.startswith("rv_")})
+    rt_names = sorted({v for v in shape["binding"].values() if _is_rt(v)})
     pre = [f'{n} = analog_read("A0")' for n in rt_names]
     return IMPORTS + "\n".join(pre + lines) + "\n", lines[-1]
 
@@ -298,10 +315,10 @@ def evaluate(shape: dict) -> dict:
                 field = renames.get(param, param)
                 if not hasattr(target, field):
                     continue
-                if src_val.startswith("rv_"):
+                if _is_rt(src_val):
                     got_text = str(getattr(target, field))
                     import re as _re
-                    names_in = set(_re.findall(r"rv_\w+", got_text))
+                    names_in = set(_re.findall(r"rv_\w+", got_text)) if src_val.startswith("rv_") else {w for w in _re.findall(r"[A-Za-z_]\w*", got_text) if w in VALUES}
                     if names_in != {src_val}:
                         ir_error = f"`{line}`: parameter {param} should bind the run-time value {src_val}, IR field {node_cls}.{field} holds {got_text!r}"
                         break
@@ -333,18 +350,20 @@ def main(tier: str, seed: int, only=None) -> int:
     all_shapes: List[dict] = []
     per_callable: Dict[str, int] = {}
     global RT_MODE
-    for mode in ((False, True) if tier == "thorough" else (False,)):
+    for mode in ((False, True, "same") if tier == "thorough" else (False, "same")):
         RT_MODE = mode
         for cls, meth, _, _ in CATALOGUE:
             if only and cls not in only:
                 continue
             n0 = len(all_shapes)
             for shp in shapes(cls, meth):
-                if mode and not any(str(v).startswith("rv_") for v in shp["binding"].values()):
+                if mode and not any(_is_rt(v) for v in shp["binding"].values()):
                     continue
-                shp["group"] += ":rt" if mode else ""
+                if mode == "same" and shp.get("explicit_default"):
+                    continue
+                shp["group"] += (":rt" if mode is True else ":same") if mode else ""
                 all_shapes.append(shp)
-            key_name = (f"{cls}.{meth}" if meth else cls) + (" [run-time args]" if mode else "")
+            key_name = (f"{cls}.{meth}" if meth else cls) + ((" [run-time args]" if mode is True else " [variables named like the parameters]") if mode else "")
             per_callable[key_name] = len(all_shapes) - n0
     RT_MODE = False
     groups: Dict[str, Dict[str, List[dict]]] = {}
@@ -364,7 +383,10 @@ def main(tier: str, seed: int, only=None) -> int:
             report.outcomes["misbound"] += 1
             report.violation(key, res["ir_error"], {"shape": shape, "message": res["ir_error"]})
             continue
-        groups.setdefault(shape["group"], {}).setdefault(res["text"], []).append(shape)
+        # `100` and `100.0` are the same bound value (an explicit default may be spelled either way by the transpiler)
+        import re as _re
+
+        groups.setdefault(shape["group"], {}).setdefault(_re.sub(r"\b(\d+)\.0\b(?![\d.eEf])", r"\1", res["text"]), []).append(shape)
     for gname, texts in groups.items():
         if len(texts) > 1:
             ranked = sorted(texts.items(), key=lambda kv: -len(kv[1]))
